@@ -1,4 +1,7 @@
 // type aliases of src/fsm.rs (copied: `pub type X = u32;`)
+// the build targets of rFSM are 64-bit (usize lengths are written as u64 tokens)
+global size_of usize == 8;
+
 pub type StateId = u32;
 pub type DocumentId = u32;
 pub type ExecutableContentId = u32;
